@@ -23,7 +23,7 @@ BACKEND = "yosys"
 
 
 def gen_case(R, tier):
-  return S.gen_case(R, tier, BACKEND)
+  return S.gen_case(R, tier, BACKEND, profile="translatable_yosys")
 
 
 run_case = S.run_case
